@@ -167,10 +167,14 @@ class Run:
                 continue
             self.quiescent()
             if self.script:
-                ev = self.script.pop(0)
-                ev()
-                self.bind()
-                continue
+                ev = self.script[0]
+                pred, fn = ev if isinstance(ev, tuple) else (None, ev)
+                if pred is None or pred():
+                    self.script.pop(0)
+                    fn()
+                    self.bind()
+                    continue
+                # not ready yet (e.g. still connecting): wait for the next timer
             nt = loop.next_timer()
             if nt is None or nt > horizon:
                 return
@@ -180,29 +184,39 @@ class Run:
     def finish(self, sig):
         c, loop, W, obs = self.c, self.loop, self.W, self.W.obs
         c.reach('scenario_ran')
+        for i in self.inj:
+            i['done'] = True          # an action that has not happened by now does not happen
         t = loop.spawn(W.net.disconnect(), name='final-shutdown')
         self.go(loop.time() + 30)
         if not t.done():
             obs.violations.append(('shutdown_completes', ['pending'], None))
-        # exactly once
+        # exactly once per life (a life ends with CLOSED; only the server connection starts another one with CONNECTING)
         for conn in obs.conns.values():
             st = obs.states(conn)
             if not st:
                 continue
-            n_closed = sum(1 for s in st if s == ConnectionState.CLOSED)
-            lives = max(1, sum(1 for s in st if s == ConnectionState.CONNECTING)) if isinstance(conn, ServerConnection) else 1
-            if n_closed != lives:
-                obs.violations.append(('closed_reported_exactly_once', [kind_of(conn), 'never' if n_closed < lives else 'more_than_once'],
-                                       {'reports': [s.name for s in st]}))
+            lives, cur = [], []
+            for s_ in st:
+                if s_ == ConnectionState.CONNECTING and cur and cur[-1] == ConnectionState.CLOSED:
+                    lives.append(cur)
+                    cur = []
+                cur.append(s_)
+            lives.append(cur)
+            for life in lives:
+                n_closed = sum(1 for s_ in life if s_ == ConnectionState.CLOSED)
+                if n_closed != 1:
+                    obs.violations.append(('closed_reported_exactly_once', [kind_of(conn), 'never' if n_closed < 1 else 'more_than_once'],
+                                           {'reports': [s_.name for s_ in st]}))
+                    break
         for conn, n in obs.sends_after_closed():
             obs.violations.append(('no_send_after_closed', [kind_of(conn)], {'writes': n}))
         cause = '+'.join(self.fired) if self.fired else 'none'
         for label in CLAUSES:
             v = [x for x in obs.violations if x[0] == label]
             if v:
-                c.check(False, label, sig=list(sig) + list(v[0][1]) + [cause], info=v[0][2])
+                c.check(False, label, sig=[sig[0]] + list(v[0][1]) + [cause], info=v[0][2])
             else:
-                c.check(True, label, sig=list(sig))
+                c.check(True, label, sig=[sig[0]])
         if not c.symbolic:
             for conn in obs.conns.values():
                 c.note('reports', kind_of(conn), getattr(conn, 'hostname', None) if isinstance(getattr(conn, 'hostname', None), str) else '?',
@@ -301,7 +315,9 @@ def do_send(loop, conn, g, typ, tag):
     """a manager sends something on the connection (symbolic payload)"""
     if typ == 'F':
         return loop.spawn(conn.send_data(g.raw(f'{tag}.raw', 6)), name='user-send')
-    return loop.spawn(conn.send_message(out_message(g, typ, tag)), name='user-send')
+    msg = out_message(g, typ, tag)
+    g.commit()
+    return loop.spawn(conn.send_message(msg), name='user-send')
 
 
 def add_tail(R, c, g, W, wire_of, typ, obf_after, tail):
@@ -312,13 +328,15 @@ def add_tail(R, c, g, W, wire_of, typ, obf_after, tail):
         w = wire_of()
         return w.owner if w is not None else None
 
+    def ready():
+        w = wire_of()
+        return w is not None and w.owner is not None and w.owner.connection_state != PeerConnectionState.AWAITING_INIT
+
     def ev(fn):
         def run():
             w = wire_of()
-            if w is None or w.owner is None:
-                return
             fn(w, w.owner)
-        R.script.append(run)
+        R.script.append((ready, run))
 
     if tail == 'none':
         return
@@ -565,6 +583,7 @@ def h_incoming(c, port, first, tail='none', inject='none', n_any=0):
                 add_tail(R, c, g, W, lambda: wire, typ, obf_after, tail)
             elif tail != 'none':
                 raise symex.HarnessError('tails need a valid first frame')
+            g.commit()
             R.go(loop.time() + HORIZON)
             if tail in ('frames_eof',) and inject == 'none':
                 c.check(len(obs.messages(wire.owner)) == 2, 'scenario_delivers_messages', sig=sig)
@@ -635,25 +654,12 @@ def h_outgoing(c, via, mode='fallback', typ='P', connect='ok', initsend='ok', ta
                 add_injection(R, c, g, W, inject, target, typ)
             # ---- after the init message was sent: the established connection ends -----------------------------------
             if tail != 'none':
-                def settle_obf():
-                    pass
-                if via == 'request':
-                    # frames the peer sends must be obfuscated iff select_port chose the obfuscated port
-                    def wire_if_established():
-                        w = out_wire()
-                        return w
-                    if tail in ('frames_eof', 'frames_batch', 'handler_disconnects', 'eof_mid_frame'):
-                        raise symex.HarnessError('frame tails are driven through direct connections')
-                    add_tail(R, c, g, W, wire_if_established, typ, False, tail)
-                else:
-                    def est():
-                        w = out_wire()
-                        if w is not None and initsend != 'ok':
-                            return None
-                        return w
-                    if initsend == 'ok':
-                        R.script.append(lambda: setattr(out_wire().writer, 'drain_mode', 'ok') if out_wire() is not None else None)
-                    add_tail(R, c, g, W, est, typ, obf_after, tail)
+                if initsend != 'ok':
+                    raise symex.HarnessError('tails need an established connection')
+                if via == 'request' and tail in ('frames_eof', 'frames_batch', 'handler_disconnects', 'eof_mid_frame'):
+                    # whether the peer has to obfuscate its frames is decided by select_port on symbolic ports
+                    raise symex.HarnessError('frame tails are driven through direct connections')
+                add_tail(R, c, g, W, out_wire, typ, obf_after, tail)
             g.commit()
             R.go(loop.time() + HORIZON)
             x = target()
@@ -693,7 +699,8 @@ def h_server(c, connect='ok', end='eof', second='ok', inject='none'):
             if inject == 'disconnect':
                 R.inject('disconnect', lambda: loop.spawn(net.disconnect_server(), name='inj-disconnect-server'))
             elif inject == 'send':
-                R.inject('send', lambda: loop.spawn(S.send_message(M.GetUserStatus.Request(g.text('injsend.username', 2))), name='inj-send'))
+                injmsg = M.GetUserStatus.Request(g.text('injsend.username', 2))
+                R.inject('send', lambda: loop.spawn(S.send_message(injmsg), name='inj-send'))
             elif inject != 'none':
                 raise symex.HarnessError(inject)
             init = loop.spawn(net.initialize(), name='initialize')
@@ -705,6 +712,7 @@ def h_server(c, connect='ok', end='eof', second='ok', inject='none'):
             elif not le_value(pre) > 2:
                 raise symex.PathAbort('assumption false in replay')
             cutf = pre + terms(g.raw('cut.body', 2))
+            outmsg = M.GetUserStatus.Request(g.text('out.username', 2))
             g.commit()
 
             def started():
@@ -739,7 +747,7 @@ def h_server(c, connect='ok', end='eof', second='ok', inject='none'):
             elif end == 'send_reset':
                 def snd(w):
                     w.writer.drain_mode = 'reset'
-                    loop.spawn(S.send_message(M.GetUserStatus.Request(g.text('out.username', 2))), name='user-send')
+                    loop.spawn(S.send_message(outmsg), name='user-send')
                 ev(snd)
             elif end == 'read_timeout':
                 pass
